@@ -140,6 +140,24 @@ def run(ctx: Ctx) -> int:
         distinct.add(json.dumps([job, variant, prev, hops, via_json], ensure_ascii=False))
         if len(samples) < 2:
             samples.append({"job": job, "variant": variant, "previous_plan": prev, "edits": kinds, "new_plans": hops})
+    # directed (fixed finding C04-dot-ticks-in-dict-order): two damage-over-time effects applied in non-alphabetical order before the
+    # checkpointed log the incremental run steps back to; the hint also travels through the member-sorting JSON writer
+    try:
+        wprev = ['CAST "미스트 이럽션 VI"', 'RESOLVE "미스트 이럽션 VI"', 'KEYDOWNSTOP "미스트 이럽션 VI"', 'USE "이프리트"',
+                 '!debug "viewer(\'clock\')"', "ELAPSE 480", "ELAPSE 0.5", "ELAPSE 100", 'USE "도트 퍼니셔"', 'RESOLVE "이그나이트"',
+                 'CAST "플레임 헤이즈 VI"', 'CAST "포이즌 미스트"', "ELAPSE 0.1", 'USE "포이즌 노바"', "ELAPSE 0", "ELAPSE 3000"]
+        wnew = list(wprev)
+        wnew[10] = 'USE "플레임 헤이즈 VI"'
+        txt, mism, rec = h_engine.scenario_hint("archmagefb", 1, wprev, [wnew], via_json=True)
+        shards["c04_dot"] = txt
+        infos["c04_dot"] = {"job": "archmagefb", "variant": 1, "previous_plan": wprev, "edits": [("directed-dot-order", 10)], "hops": [wnew],
+                            "via_json": True, "plays": rec.plays, "conflicts": rec.conflicts}
+        for m in mism:
+            findings.append(dict(m, job="archmagefb", variant=1, what="run_plan_with_hint differs from run_plan (JSON)"))
+        hops_total += 1
+        kinds_hist["directed-dot-order"] = 1
+    except Exception as e:
+        findings.append({"job": "archmagefb", "variant": 1, "what": "directed DOT-order scenario raised %r" % e})
     meta_ok = True
     try:
         job, variant = ec.job_schedule(ctx, 1)[0]
